@@ -300,6 +300,7 @@ func (rs *RequestServer) packetWorker(ctx context.Context, pktChan chan orderedR
 				request = &Request{
 					Method:   "Stat",
 					Filepath: cleanPathWithBase(rs.startDirectory, request.Filepath),
+					ctx:      ctx,
 				}
 				rpkt = request.call(rs.Handlers, pkt, rs.pktMgr.alloc, orderID, rs.maxTxPacket)
 			}
@@ -312,6 +313,7 @@ func (rs *RequestServer) packetWorker(ctx context.Context, pktChan chan orderedR
 				request = &Request{
 					Method:   "Setstat",
 					Filepath: cleanPathWithBase(rs.startDirectory, request.Filepath),
+					ctx:      ctx,
 				}
 				rpkt = request.call(rs.Handlers, pkt, rs.pktMgr.alloc, orderID, rs.maxTxPacket)
 			}
@@ -320,12 +322,14 @@ func (rs *RequestServer) packetWorker(ctx context.Context, pktChan chan orderedR
 				Method:   "PosixRename",
 				Filepath: cleanPathWithBase(rs.startDirectory, pkt.Oldpath),
 				Target:   cleanPathWithBase(rs.startDirectory, pkt.Newpath),
+				ctx:      ctx,
 			}
 			rpkt = request.call(rs.Handlers, pkt, rs.pktMgr.alloc, orderID, rs.maxTxPacket)
 		case *sshFxpExtendedPacketStatVFS:
 			request := &Request{
 				Method:   "StatVFS",
 				Filepath: cleanPathWithBase(rs.startDirectory, pkt.Path),
+				ctx:      ctx,
 			}
 			rpkt = request.call(rs.Handlers, pkt, rs.pktMgr.alloc, orderID, rs.maxTxPacket)
 		case hasHandle:
